@@ -309,15 +309,35 @@ def report(ctx, kind, inv, scenario, trace=None, extra=None, what=None):
     return True
 
 
+_TRACE_INDEX = {}
+_T_RE = re.compile(rb'"t":(\d+)[,}]')
+
+
+def _trace_index(path):
+    """Offsets of the lines of an ndjson file by the trace numbers they mention (built once per file and size: a change
+    that fails thousands of judgements must not make the report quadratic in the size of the trace)."""
+    key = (path, os.path.getsize(path))
+    idx = _TRACE_INDEX.get(key)
+    if idx is None:
+        idx = {}
+        off = 0
+        with open(path, "rb") as f:
+            for line in f:
+                for m in set(_T_RE.findall(line)):
+                    idx.setdefault(int(m), []).append(off)
+                off += len(line)
+        _TRACE_INDEX[key] = idx
+    return idx
+
+
 def trace_of(path, t, limit=400):
     """Extracts trace number t from an ndjson file."""
     out = []
-    with open(path) as f:
-        for line in f:
-            if ('"t":%d,' % t) in line or ('"t":%d}' % t) in line:
-                out.append(json.loads(line))
-                if len(out) >= limit:
-                    break
+    offs = _trace_index(path).get(t, [])[:limit]
+    with open(path, "rb") as f:
+        for off in offs:
+            f.seek(off)
+            out.append(json.loads(f.readline()))
     return out
 
 
